@@ -1344,7 +1344,7 @@ struct PairSpace
             for (auto a : ks)
                 for (auto b : ks)
                     for (int v = 0; v < 4; ++v)
-                        for (int g = 0; g < 2; ++g)
+                        for (int g = 0; g < (tr.has_peek ? 4 : 2); ++g) // 2, 3: as 0, 1 with peeking lookups
                             all.push_back({cont, a, b, v, g});
         }
     }
@@ -1406,12 +1406,14 @@ ConcPlan pair_plan(uint64_t idx, uint64_t seed)
     auto mk = [&](OpKind k, int who) {
         Op o;
         o.kind  = k;
-        int kp  = e.args == 0 ? 0 : (who == 0 ? 1 : 4); // present key 0 for both, or 1 (present) / 4 (absent)
-        int kn  = e.args == 0 ? 3 : (who == 0 ? 3 : 5); // new keys
+        const int  av   = e.args & 1;
+        const bool peek = (e.args & 2) != 0;
+        int        kp   = av == 0 ? 0 : (who == 0 ? 1 : 4); // present key 0 for both, or 1 (present) / 4 (absent)
+        int        kn   = av == 0 ? 3 : (who == 0 ? 3 : 5); // new keys
         switch (k)
         {
             case OpKind::insert:
-                o.key    = e.args == 0 ? kp : kn;
+                o.key    = av == 0 ? kp : kn;
                 o.val    = val++;
                 o.ttl_ms = 1000;
                 break;
@@ -1428,11 +1430,12 @@ ConcPlan pair_plan(uint64_t idx, uint64_t seed)
                 break;
             case OpKind::find:
             case OpKind::find_uc:
-                o.key  = e.args == 0 ? kp : 2;
-                o.peek = false;
+                o.key  = av == 0 ? kp : 2;
+                o.peek = peek;
                 break;
             case OpKind::find_range:
             case OpKind::find_fill:
+                o.peek  = peek;
                 o.items = {Item{kp, 0, 0}, Item{2, 0, 0}, Item{1, 0, 0}};
                 o.form  = tr.iter_forms ? 3 : 0;
                 break;
